@@ -23,6 +23,8 @@ var c06Cfg = kit.WorldCfg{
 		{Name: "owned", RefTo: "targets", RefWiring: kit.WireFkIndexCascade},   // deleted together with their target
 		// declared against the child store kids, its back-reference set kept by the parent store things (restrict)
 		{Name: "kholders", RefTo: "kids", RefWiring: kit.WireFkIndexNullable, BackRefOnParent: true},
+		// a self-referencing store whose reference restricts (used by C07: a root naming itself, with children)
+		{Name: "grp", RefTo: "grp", RefWiring: kit.WireConstraintNone},
 	},
 	// two child types over things: "kids0" is registered first; "kids" has a unique index and a link collection of its own
 	Children: []kit.ChildCfg{{Name: "kids0", Parent: "things"}, {Name: "kids", Parent: "things", UniqueExtra: true}},
